@@ -65,10 +65,10 @@ def plan(tier, seed):
                         "T": T, "start": start, "n": min(chunk, total - start), "total": total,
                         "seed": seed, "tier": tier, "timeout_s": 1800})
     if tier == "quick":
-        kinds = {"random": 6000, "overlapping": 1500, "adversarial": 1500, "exact": 2500}
+        kinds = {"random": 6000, "overlapping": 1500, "adversarial": 1500, "exact": 2500, "crowd": 3}
         per = 750
     else:
-        kinds = {"random": 400000, "overlapping": 80000, "adversarial": 80000, "exact": 120000}
+        kinds = {"random": 400000, "overlapping": 80000, "adversarial": 80000, "exact": 120000, "crowd": 60}
         per = 10000
     out += common.shards(kinds, per_shard=per, tier=tier, seed=seed)
     _out = out
@@ -176,6 +176,8 @@ def gen(rng, kind, tier, *, repeated_stamps=True):
             h = tracking.random_history(rng, overlapping=True)
         elif kind == "exact":
             h = tracking.exact_history(rng)
+        elif kind == "crowd":
+            return tracking.crowd_history(rng)
         else:
             h = tracking.adversarial_history(rng)
         if not tracking.has_knife_edge(h):
